@@ -204,6 +204,7 @@ def handle (op : String) (j : Json) : Option Json :=
                  ("schema", schemaOk r o),
                  ("address", addressOk r.column stmts),
                  ("constraints", constraintOk r stmts),
+                 ("mustSucceed", mustSucceed d r),
                  ("plain", plainDefaults r),
                  ("final", stateToJson fin)])
     | _, _, _, _ => some (errJ "bad-op")
